@@ -96,6 +96,34 @@ var c25Shapes = []string{
 	`go func() {}()`,
 	`fmt.Println(@A, /* inline */ @B) // trailing`,
 	`fmt.Printf("%c%c\n", 'a'+rune(@A%5), '$')`,
+	// names declared in an if/for/switch header shadow in every branch of the statement
+	`if sprint := strings.Repeat("*", @A%3); sprint == "" {
+		fmt.Println("empty")
+	} else if len(sprint) == 1 {
+		fmt.Println(fmt.Sprint(@A, sprint))
+	} else {
+		fmt.Println(fmt.Sprint(@B) + sprint)
+	}`,
+	`if printf, ok := interface{}(@A).(int); !ok {
+		fmt.Println("no")
+	} else {
+		fmt.Printf("%d %d\n", printf, @B)
+	}`,
+	`for echo := 0; echo < @B%3; echo++ {
+		fmt.Println("loop", echo)
+	}`,
+	`switch errorf := @A % 2; errorf {
+	case 0:
+		fmt.Println(fmt.Errorf("even %d", errorf))
+	default:
+		fmt.Println(fmt.Errorf("odd %d", errorf))
+	}`,
+	`func(sprintf string) {
+		fmt.Println(fmt.Sprintf("%s-%d", sprintf, @A))
+	}("p")`,
+	`for _, println := range []int{@A, @B} {
+		fmt.Println(println)
+	}`,
 }
 
 func c25Extra(r *fw.Rand) string {
